@@ -31,6 +31,9 @@ func Open(filename, password string) (*DB, error) {
 		return nil, fmt.Errorf("error creating sqlite connector: %w", err)
 	}
 	db := sql.OpenDB(connector)
+	// A single connection: concurrent requests otherwise open further
+	// connections to the same file and fail with "database is locked"
+	db.SetMaxOpenConns(1)
 	if err := Init(db); err != nil {
 		return nil, err
 	}
